@@ -1,12 +1,7 @@
-(* C33 -- the checks evaluated on the table dumped from the code in this run *)
+(* C33 -- Prop-level reading of the boolean checks *)
 From Coq Require Import List Bool Arith NArith Ascii String.
-From C33 Require Import C32Spec C32Model C32Proofs C33Model C33General C33_gen.
+From C33 Require Import C32Spec C32Model C32Proofs C33Model C33General C33_gen C33TableOk.
 Import ListNotations.
-
-Lemma table_ok : check_table table = true.
-Proof. vm_compute. reflexivity. Qed.
-Lemma roundtrip_ok : check_roundtrip table = true.
-Proof. vm_compute. reflexivity. Qed.
 
 Lemma beqb_eq a b : beqb a b = true -> a = b.
 Proof.
@@ -25,9 +20,9 @@ Qed.
 Lemma faithful e : In e table -> exists cp, decode_utf8 (fst e) = Some cp /\ (128 <= cp < 65536)%N /\ snd e = prefix ++ hex4 cp.
 Proof.
   intros I. destruct table_parts as [F _]. rewrite forallb_forall in F. specialize (F e I). unfold faithful_entry in F.
-  destruct (decode_utf8 (fst e)) as [cp|] eqn:D; [|discriminate]. apply andb_prop in F. destruct F as [F F2].
+  revert F. destruct (decode_utf8 (fst e)) as [cp|]; intros F; [|discriminate F].  apply andb_prop in F. destruct F as [F F2].
   apply andb_prop in F. destruct F as [F0 F1].
-  exists cp. split; auto. split; [|now apply beqb_eq]. apply N.ltb_lt in F1. apply N.leb_le in F0. split; auto.
+  exists cp. split; [reflexivity|]. split; [|now apply beqb_eq]. apply N.ltb_lt in F1. apply N.leb_le in F0. split; auto.
 Qed.
 
 Lemma head_unique_entry e : In e table -> head_unique ascii (snd e) /\ Forall (fun a => is_ascii a = true) (snd e) /\
